@@ -14,7 +14,15 @@ specification answer (the least model computed by Engine/Sem.v naive_fix), never
 Base programs: (a) "semi-join" rules - a key clause, then target clauses whose newly bound variables are used ONLY by conditions
 (attached or later), let / if-let / for items and head expressions, never as a join key, over inputs with several rows per join key in
 both orders (each input also reversed: whichever row is first in a posting list, some list starts with a row that fails the condition);
-recursive variants (reach(y) <-- reach(x), link(x, y), t(y, s), if P(s)); (b) random core programs of gen/gen_dl.py with many conditions."""
+recursive variants (reach(y) <-- reach(x), link(x, y), t(y, s), if P(s)); (b) random core programs of gen/gen_dl.py with many conditions.
+
+One shape is NOT rendered through macros (found by this family on the unchanged /repo, outside C01's quantifier because the program does
+not compile): `h(..) <-- a(x, w), t(x, y) if matches!(*y < *w, true)` - a condition attached to the second of the first two clauses
+that mentions a variable bound only by the FIRST clause, inside a macro invocation.  ascent_hir.rs compile_rule_to_ir_rule decides
+"simple join" (the two clauses may be evaluated in either order) from expr_get_vars of the attached conditions, sees no variable, and the
+reordered variant of the rule evaluates the condition before `w` is bound: rustc E0425 "cannot find value `w` in this scope".  Written
+plainly (`if *y < *w`) the same program compiles (the join is not taken for simple).  r_item writes exactly those conditions plainly
+and counts them (stats 'conditions_written_plainly_simple_join_scope')."""
 import copy
 import json
 
@@ -318,7 +326,7 @@ def gen_semi_program(rng):
             g.keys += [x, w]
         elif u < 0.9:
             x = g.fresh()
-            g.body.append(("cond", ("letc", x, rng.choice(DOM[:3])) if rng.random() < 0.6 else ("gen", x, "range3", [])))
+            g.body.append(("cond", ("letc", x, rng.choice(DOM[:3]))) if rng.random() < 0.6 else ("gen", x, "range3", []))
             g.keys.append(x)
         # else: the target clause is the first clause of the rule (all of its variables are new)
         for _ in range(rng.choice([1, 1, 1, 2])):
@@ -383,7 +391,7 @@ FREE_OPTS = dict(p_clause_cond=0.55, p_clause=0.5, p_leading_binder=0.08, p_bind
 def gen_cases(tier, seed, prop="C01"):
     """engine cases (dict(id, prog, inputs, styles)) carrying their macro renderings in 'mx_variants' = [(kind, text)]"""
     rng = lib.rng_for(seed, prop, "macroexpr")
-    n = 18 if tier == "quick" else 140
+    n = 15 if tier == "quick" else 90
     cases = []
     for i in range(n):
         if i % 3 != 2:
